@@ -152,6 +152,8 @@ def ob_write(beats, charts, ctx, selectable=True, rate=False, over=False, bpm_or
     if rate:
         r = ctx.real("r")
         ctx.assume(r > 0)
+        if rate == "after-a-first-write":  # whatever a write leaves behind on the lists must not outlive a later change of the chart
+            sms.write()
         sms = sms.rate(r)
     snaps = [MapSnap(m) for m in sms.maps]
     text = sms.write()
@@ -236,6 +238,14 @@ def objs_basic(k):
             ("fake", k - 1, F(22, 3)), ("keysound", 0, F(31, 4))]
 
 
+def objs_unequal(k):  # more holds than rolls, and kinds that follow them in the writer's tables
+    return [("hold", 0, 0, 1), ("hold", k - 1, F(1, 2), F(3, 2)), ("roll", 1 % k, 2, 3), ("mine", 0, F(5, 2)), ("fake", k - 1, 3), ("hit", 0, F(7, 2)), ("lift", 1 % k, 5), ("keysound", 0, 6)]
+
+
+def objs_no_rolls(k):
+    return [("hold", 0, 0, 1), ("hold", k - 1, F(1, 2), F(3, 2)), ("hold", 1 % k, 2, 3), ("mine", 0, F(5, 2)), ("hit", k - 1, 3), ("fake", 0, F(7, 2))]
+
+
 def objs_late(k):  # empty leading measures
     return [("hit", 0, 9), ("hold", k - 1, F(19, 2), 12), ("hit", 1 % k, F(49, 4))]
 
@@ -262,6 +272,11 @@ def obligations(tier, seed):
                 obs.append(Obligation("C03/write/K%d/%s/tempo=%s" % (keys, oname, tname), partial(ob_write, beats, [(keys, of(keys))]),
                                       bound="mapset built from items: %d keys, objects %s at grid positions, tempo changes at beats %s, symbolic beat lengths/offset/sample window"
                                             % (keys, oname, beats), max_paths=500, timeout_s=200))
+    for keys in ((4,) if quick else (4, 7)):
+        for oname, of in (("unequal-kind-counts", objs_unequal), ("holds-without-rolls", objs_no_rolls)):
+            for tname in ("one", "mid"):
+                obs.append(Obligation("C03/write/K%d/%s/tempo=%s" % (keys, oname, tname), partial(ob_write, tempo_sets[tname], [(keys, of(keys))]),
+                                      bound="mapset built from items: %d keys, objects %s, tempo changes at beats %s" % (keys, oname, tempo_sets[tname]), max_paths=500, timeout_s=200))
     for keys in (4, 7):
         obs.append(Obligation("C03/write/K%d/over-384-rows/tempo=one" % keys, partial(ob_write, [0], [(keys, objs_over(keys))], over=True),
                               bound="%d keys, a measure mixing 7ths, 9ths and 64ths of a beat (needs more than 384 rows): compared within 1/96 beat" % keys))
@@ -272,6 +287,8 @@ def obligations(tier, seed):
     obs.append(Obligation("C03/write/selectable-false", partial(ob_write, [0], [(4, objs_basic(4))], selectable=False), bound="selectable=False"))
     for tname in ("one", "line", "mid"):
         obs.append(Obligation("C03/write/rated/tempo=%s" % tname, partial(ob_write, tempo_sets[tname], [(4, objs_basic(4))], rate=True), bound="mapset after rate(r), r>0 symbolic; tempo %s" % tname))
+        obs.append(Obligation("C03/write/written-then-rated/tempo=%s" % tname, partial(ob_write, tempo_sets[tname], [(4, objs_basic(4))], rate="after-a-first-write"),
+                              bound="mapset written once, then rate(r) (r>0 symbolic), then written; tempo %s" % tname))
     for keys, pn in ((4, "taps"), (4, "hold-across-measures"), (6, "mixed-symbols"), (4, "48-rows"), (8, "roll+hold"), (4, "empty-first-measure")):
         for bs in (("one", "mid-measure") if quick else ("one", "measure-line", "mid-measure", "mid+line", "third")):
             obs.append(Obligation("C03/read-write/K%d/%s/bpms=%s" % (keys, pn, bs), partial(ob_read_write, [(keys, pn, "desc", "Hard", 9)], bs),
